@@ -447,11 +447,12 @@ pub fn run_c15(ctx: &Ctx) -> i32 {
                     }
                     let mut rng = SmallRng::seed_from_u64(ctx.case_seed("acct", c));
                     evals += 1;
-                    let viols = match c % 4 {
+                    let viols = match if ctx.prop == "C02" { 4 } else { c % 5 } {
                         0 => acct_run(ctx, c, &mut rng, &mut local, &mut fps),
                         1 => fragment_run(c, &mut rng, &mut local, &mut fps),
                         2 => pressure_run(c, &mut rng, &mut local, &mut fps),
-                        _ => overwrite_run(c, &mut rng, &mut local, &mut fps),
+                        3 => overwrite_run(c, &mut rng, &mut local, &mut fps),
+                        _ => tight_run(c, &mut rng, &mut local, &mut fps),
                     };
                     if !viols.is_empty() {
                         let mut e = shared.lock().unwrap();
@@ -460,7 +461,7 @@ pub fn run_c15(ctx: &Ctx) -> i32 {
                         }
                     }
                     if c < 3 {
-                        let kind = ["accounting identity per command", "drift-free fragment (behavioural)", "pressure phase then small live set (behavioural)", "overwrite-heavy workload under a generous limit (behavioural form of the known drift)"][(c % 4) as usize];
+                        let kind = ["accounting identity per command", "drift-free fragment (behavioural)", "pressure phase then small live set (behavioural)", "overwrite-heavy workload under a generous limit (behavioural form of the known drift)", "store filled exactly to its limit, then one conditional command carrying a stale CAS"][if ctx.prop == "C02" { 4 } else { (c % 5) as usize }];
                         shared.lock().unwrap().sample(json!({"case": c, "kind": kind}));
                     }
                 }
@@ -671,6 +672,69 @@ fn fragment_run(case: u64, rng: &mut SmallRng, local: &mut BTreeMap<String, u64>
         }
     }
     fps.push(fnv(format!("fragment:{}:{}", l, nkeys).as_bytes()));
+    vec![]
+}
+
+/// (c) the store is filled with absent-key stores (exact accounting) to exactly its limit, so that no
+/// eviction is justified yet; then ONE command carrying a stale CAS is issued against a live key. It must
+/// be refused with 'key exists', and every item must still be there unchanged: memory pressure is no
+/// excuse for dropping the CAS comparison or the item.
+fn tight_run(case: u64, rng: &mut SmallRng, local: &mut BTreeMap<String, u64>, fps: &mut Vec<u64>) -> Vec<RunErr> {
+    let n = rng.gen_range(4..24usize);
+    let lens: Vec<usize> = (0..n).map(|i| if i == 0 { 2 } else { rng.gen_range(0..200) }).collect();
+    let total: u64 = lens.iter().map(|l| 24 + *l as u64).sum();
+    let stack = Stack::new(StoreKind::Random(total), 100);
+    let mut conn = Conn::new(stack.memc.clone(), 1 << 20);
+    let mut cas: Vec<u64> = vec![];
+    let mut vals: Vec<Vec<u8>> = vec![];
+    for (k, l) in lens.iter().enumerate() {
+        // key 0 holds a counter so that incr/decr take the arithmetic path
+        let f = if k == 0 { wire::store(op::SET, &keyname(0), b"41", 5, 0, 1, 0) } else { W::Set { k, len: *l, ttl: 0, cas: 0 }.frame(1).unwrap() };
+        let r = one(&mut conn, f);
+        cas.push(r.as_ref().map(|r| r.cas).unwrap_or(0));
+        vals.push(if k == 0 { b"41".to_vec() } else { (0..*l).map(|i| b'a' + (i % 23) as u8).collect() });
+    }
+    let (nrec, bytes) = stack.content_size();
+    if nrec as usize != n || bytes != total {
+        return vec![(
+            Viol::new(&["C14", "C15"], "evicted-while-filling-to-the-limit", format!("{} records / {} bytes stored after filling {} records of {} bytes under a limit of exactly {}", nrec, bytes, n, total, total)),
+            json!({"engine":"acct-tight","case":case}),
+        )];
+    }
+    let k = rng.gen_range(0..n);
+    let stale = cas[k].wrapping_add(rng.gen_range(1..9));
+    let kind = rng.gen_range(0..7);
+    let key = keyname(k);
+    let (name, f) = match kind {
+        0 => ("set", wire::store(op::SET, &key, b"overwrite", 1, 0, 9, stale)),
+        1 => ("replace", wire::store(op::REPLACE, &key, b"overwrite", 1, 0, 9, stale)),
+        2 => ("append", wire::concat(op::APPEND, &key, b"zz", 9, stale)),
+        3 => ("prepend", wire::concat(op::PREPEND, &key, b"zz", 9, stale)),
+        4 => ("incr", wire::counter(op::INCR, &keyname(0), 1, 0, 0, 9, cas[0].wrapping_add(3))),
+        5 => ("decr", wire::counter(op::DECR, &keyname(0), 1, 0, 0, 9, cas[0].wrapping_add(3))),
+        _ => ("delete", wire::delete(op::DELETE, &key, 9, stale)),
+    };
+    let r = one(&mut conn, f);
+    *local.entry(format!("tight:stale-cas-{}", name)).or_insert(0) += 1;
+    let desc = json!({"engine":"acct-tight","case":case,"limit":total,"records":n,"command":name,"key":k,"stale_cas":stale,"current_cas":cas[k]});
+    if r.as_ref().map(|r| r.status != st::EXISTS).unwrap_or(true) {
+        return vec![(
+            Viol::new(&["C02", "C15"], "stale-cas-accepted-under-pressure", format!("{} carrying a stale CAS on a live key of a store filled exactly to its limit answered {:?} instead of 'key exists'", name, r.map(|r| r.status))),
+            desc,
+        )];
+    }
+    for i in 0..n {
+        *local.entry("tight:live_key_probes".into()).or_insert(0) += 1;
+        let g = one(&mut conn, wire::get(op::GET, &keyname(i), 0));
+        let ok = g.as_ref().map(|g| g.status == st::OK && g.value == vals[i] && g.cas == cas[i]).unwrap_or(false);
+        if !ok {
+            return vec![(
+                Viol::new(&["C02", "C15", "C06"], "refused-command-changed-store", format!("after a refused {} (stale CAS) key k{} reads {:?}", name, i, g.map(|g| g.brief()))),
+                desc,
+            )];
+        }
+    }
+    fps.push(fnv(format!("tight:{}:{}", name, n).as_bytes()));
     vec![]
 }
 
